@@ -199,8 +199,30 @@ impl<'e> PairRun<'e> {
     /// Runs the pair once on a fresh limiter. Ok(observed second response) or
     /// the mismatch.
     fn once(&mut self, server: &mut Server<Cat>, c: &RrlCfg, rel: &Relation, first: (IpAddr, usize), second: (IpAddr, usize)) -> Result<Observed, Mismatch> {
+        use std::time::Duration;
+        let r = self.once_at(server, c, rel, first, second, Duration::ZERO, Duration::ZERO)?;
+        if matches!(rel.expect, Expect::Limited) {
+            // Two responses of one stream less than a second apart share the
+            // single token whatever the clock's phase relative to the moment
+            // the limiter was created (clock 0): the first response at a
+            // fractional second, the second across the next whole second.
+            for (t1, t2) in [(Duration::from_millis(700), Duration::from_millis(1100)), (Duration::new(2, 999_999_999), Duration::new(3, 999_999_998))] {
+                self.once_at(server, c, rel, first, second, t1, t2).map_err(|mut m| {
+                    m.key = format!("{}/clock-phase", m.key);
+                    m.detail["clock_s"] = json!([t1.as_secs_f64(), t2.as_secs_f64()]);
+                    m
+                })?;
+            }
+        }
+        Ok(r)
+    }
+
+    fn once_at(&mut self, server: &mut Server<Cat>, c: &RrlCfg, rel: &Relation, first: (IpAddr, usize), second: (IpAddr, usize), t1: std::time::Duration, t2: std::time::Duration) -> Result<Observed, Mismatch> {
+        sut::set_rrl_clock(std::time::Duration::ZERO);
         sut::reset_rrl(server, c);
+        sut::set_rrl_clock(t1);
         let o1 = self.observe(server, first.1, first.0);
+        sut::set_rrl_clock(t2);
         if o1 != Observed::Sent {
             let k = match &o1 {
                 Observed::Panic(p) => sut::panic_class(p),
@@ -329,7 +351,7 @@ pub fn run(ctx: Ctx) -> ! {
         sut::machinery(&format!("enumerated {} pairs but planned {planned}", ctx.evaluations()));
     }
     let rule = format!(
-        "every ordered pair (first, second) of requests from the menu {{{} source addresses straddling every configured prefix length, IPv4-mapped and look-alike IPv6 forms}} x {{{} request kinds: NOERROR same/other QNAME, case variants, wildcard-synthesised, NXDOMAIN, REFUSED/NOTIMP/SERVFAIL/FORMERR/BADVERS/NOTAUTH, TCP, other opcodes, ignored messages}}, under every listed (IPv4 prefix, IPv6 prefix, slip, table size) configuration, rate 1 x window 1, clock frozen, each pair on a fresh limiter; oracle: the second response is limited (dropped with slip 0, TC-only with slip 1) iff both are UDP QUERY responses from the same prefix of the same family (IPv4-mapped = IPv4) in the same category and, for NOERROR, with the same QNAME/source of synthesis ignoring case; otherwise it is octet-identical to the unlimited response; the first response is never limited",
+        "every ordered pair (first, second) of requests from the menu {{{} source addresses straddling every configured prefix length, IPv4-mapped and look-alike IPv6 forms}} x {{{} request kinds: NOERROR same/other QNAME, case variants, wildcard-synthesised, NXDOMAIN, REFUSED/NOTIMP/SERVFAIL/FORMERR/BADVERS/NOTAUTH, TCP, other opcodes, ignored messages}}, under every listed (IPv4 prefix, IPv6 prefix, slip, table size) configuration, rate 1 x window 1, clock frozen (same-stream pairs also with the first response 0.7 s and the second 1.1 s after the limiter was created, and at 2.999999999 s / 3.999999998 s), each pair on a fresh limiter; oracle: the second response is limited (dropped with slip 0, TC-only with slip 1) iff both are UDP QUERY responses from the same prefix of the same family (IPv4-mapped = IPv4) in the same category and, for NOERROR, with the same QNAME/source of synthesis ignoring case; otherwise it is octet-identical to the unlimited response; the first response is never limited",
         srcs.len(),
         env.menu.len()
     );
